@@ -207,6 +207,164 @@ otable!(
     o_putmsgpack / OPutmsgpack, o_patchpostcard / OPatchpostcard, o_putpostcard / OPutpostcard,
 );
 
+// ---------------------------------------------------------------- values a codec cannot carry
+#[derive(Clone, Debug, PartialEq, Eq, Hash, Serialize, Deserialize)]
+pub struct Key {
+    pub a: u8,
+}
+#[derive(Clone, Debug, Serialize, Deserialize)]
+pub struct PoisonOut {
+    pub pad: String,
+    pub m: std::collections::HashMap<Key, u32>,
+}
+/// JSON object keys must be strings: the argument fails to serialize after `pad` was written
+#[server(input = Json, output = Json, client = LoopClient, server = LoopServer)]
+pub async fn poison_arg(pad: String, m: std::collections::HashMap<Key, u32>) -> Result<u32, ServerFnError> {
+    Ok((pad.len() + m.len()) as u32)
+}
+/// … and here the result does
+#[server(input = Json, output = Json, client = LoopClient, server = LoopServer)]
+pub async fn poison_result(pad: String) -> Result<PoisonOut, ServerFnError> {
+    let mut m = std::collections::HashMap::new();
+    m.insert(Key { a: 1 }, 2u32);
+    Ok(PoisonOut { pad, m })
+}
+/// JSON has no NaN
+#[server(input = Json, output = Json, client = LoopClient, server = LoopServer)]
+pub async fn nan_arg(x: f64) -> Result<u32, ServerFnError> {
+    Ok(x.is_nan() as u32)
+}
+#[derive(Clone, Debug, Serialize, Deserialize)]
+pub struct D6 { pub x: u8 }
+#[derive(Clone, Debug, Serialize, Deserialize)]
+pub struct D5 { pub d: D6 }
+#[derive(Clone, Debug, Serialize, Deserialize)]
+pub struct D4 { pub d: D5 }
+#[derive(Clone, Debug, Serialize, Deserialize)]
+pub struct D3 { pub d: D4 }
+#[derive(Clone, Debug, Serialize, Deserialize)]
+pub struct D2 { pub d: D3 }
+#[derive(Clone, Debug, Serialize, Deserialize)]
+pub struct D1 { pub d: D2 }
+/// nesting deeper than the URL codecs' limit of 5
+#[server(input = GetUrl, output = Json, client = LoopClient, server = LoopServer)]
+pub async fn deep(d: D1) -> Result<u32, ServerFnError> {
+    Ok(d.d.d.d.d.d.x as u32)
+}
+
+// ---------------------------------------------------------------- custom error types
+#[derive(Clone, Debug, Serialize, Deserialize)]
+pub struct EPlan {
+    pub variant: u8,
+    pub id: u64,
+    pub what: String,
+    pub code: u32,
+    pub many: Vec<u8>,
+    pub kind: u8,
+}
+fn lib_err(kind: u8, m: String) -> server_fn::error::ServerFnErrorErr {
+    use server_fn::error::ServerFnErrorErr as K;
+    match kind {
+        1 => K::Registration(m),
+        2 => K::Request(m),
+        3 => K::Response(m),
+        4 => K::ServerError(m),
+        5 => K::MiddlewareError(m),
+        6 => K::Deserialization(m),
+        7 => K::Serialization(m),
+        8 => K::Args(m),
+        9 => K::MissingArg(m),
+        _ => K::UnsupportedRequestMethod(m),
+    }
+}
+fn lib_err_to(e: &server_fn::error::ServerFnErrorErr) -> Sexp {
+    use server_fn::error::ServerFnErrorErr as K;
+    let (k, m) = match e {
+        K::Registration(m) => (1, m),
+        K::Request(m) => (2, m),
+        K::Response(m) => (3, m),
+        K::ServerError(m) => (4, m),
+        K::MiddlewareError(m) => (5, m),
+        K::Deserialization(m) => (6, m),
+        K::Serialization(m) => (7, m),
+        K::Args(m) => (8, m),
+        K::MissingArg(m) => (9, m),
+        K::UnsupportedRequestMethod(m) => (10, m),
+    };
+    Lst(vec![Num(k), Sexp::from_str(m)])
+}
+macro_rules! app_err {
+    ($err:ident, $enc:ty, $fname:ident, $strct:ident, $input:ident) => {
+        /// an application error type carried by its own encoding
+        #[derive(Clone, Debug, PartialEq, Serialize, Deserialize)]
+        pub enum $err {
+            Lib(server_fn::error::ServerFnErrorErr),
+            NotFound { id: u64, what: String },
+            Code(u32),
+            Many(Vec<u8>),
+        }
+        impl std::fmt::Display for $err {
+            fn fmt(&self, f: &mut std::fmt::Formatter<'_>) -> std::fmt::Result {
+                write!(f, "{self:?}")
+            }
+        }
+        impl server_fn::error::FromServerFnError for $err {
+            type Encoder = $enc;
+            fn from_server_fn_error(e: server_fn::error::ServerFnErrorErr) -> Self {
+                Self::Lib(e)
+            }
+        }
+        impl $err {
+            fn sexp(&self) -> Sexp {
+                match self {
+                    Self::Lib(e) => Lst(vec![Num(4), lib_err_to(e)]),
+                    Self::NotFound { id, what } => Lst(vec![Num(1), u64_to(*id), Sexp::from_str(what)]),
+                    Self::Code(c) => Lst(vec![Num(2), Num(*c as i64)]),
+                    Self::Many(b) => Lst(vec![Num(3), Sexp::from_bytes(b)]),
+                }
+            }
+            fn show(r: Result<u32, Self>) -> Sexp {
+                match r {
+                    Ok(n) => Lst(vec![Num(0), Num(n as i64)]),
+                    Err(e) => Lst(vec![Num(1), e.sexp()]),
+                }
+            }
+        }
+        #[server(input = $input, output = Json, client = LoopClient, server = LoopServer)]
+        pub async fn $fname(plan: EPlan) -> Result<u32, $err> {
+            match plan.variant {
+                0 => Ok(plan.code),
+                1 => Err($err::NotFound { id: plan.id, what: plan.what }),
+                2 => Err($err::Code(plan.code)),
+                3 => Err($err::Many(plan.many)),
+                _ => Err($err::Lib(lib_err(plan.kind, plan.what))),
+            }
+        }
+    };
+}
+app_err!(AppErrJson, server_fn::codec::JsonEncoding, e_json, EJson, Json);
+app_err!(AppErrCbor, server_fn::codec::CborEncoding, e_cbor, ECbor, Cbor);
+app_err!(AppErrMsgPack, server_fn::codec::MsgPackEncoding, e_msgpack, EMsgpack, MsgPack);
+app_err!(AppErrPostcard, server_fn::codec::PostcardEncoding, e_postcard, EPostcard, Postcard);
+app_err!(AppErrPostcardJsonIn, server_fn::codec::PostcardEncoding, e_postcard_jsonin, EPostcardJsonin, Json);
+app_err!(AppErrMsgPackUrlIn, server_fn::codec::MsgPackEncoding, e_msgpack_urlin, EMsgpackUrlin, PostUrl);
+
+type AppFn = fn(EPlan) -> Sexp;
+pub const APP_FNS: &[(AppFn, AppFn)] = &[
+    (|p| AppErrJson::show(futures::executor::block_on(EJson { plan: p }.run_on_client())),
+     |p| AppErrJson::show(futures::executor::block_on(e_json(p)))),
+    (|p| AppErrCbor::show(futures::executor::block_on(ECbor { plan: p }.run_on_client())),
+     |p| AppErrCbor::show(futures::executor::block_on(e_cbor(p)))),
+    (|p| AppErrMsgPack::show(futures::executor::block_on(EMsgpack { plan: p }.run_on_client())),
+     |p| AppErrMsgPack::show(futures::executor::block_on(e_msgpack(p)))),
+    (|p| AppErrPostcard::show(futures::executor::block_on(EPostcard { plan: p }.run_on_client())),
+     |p| AppErrPostcard::show(futures::executor::block_on(e_postcard(p)))),
+    (|p| AppErrPostcardJsonIn::show(futures::executor::block_on(EPostcardJsonin { plan: p }.run_on_client())),
+     |p| AppErrPostcardJsonIn::show(futures::executor::block_on(e_postcard_jsonin(p)))),
+    (|p| AppErrMsgPackUrlIn::show(futures::executor::block_on(EMsgpackUrlin { plan: p }.run_on_client())),
+     |p| AppErrMsgPackUrlIn::show(futures::executor::block_on(e_msgpack_urlin(p)))),
+];
+
 type R = Result<Val, ServerFnError>;
 macro_rules! table {
     ($($name:ident / $strct:ident),* $(,)?) => {
@@ -406,6 +564,69 @@ fn items_to<T, F: Fn(&T) -> Sexp>(items: &[Result<T, ServerFnError>], f: F) -> S
         .collect())
 }
 
+/// (request-piece-size response-piece-size) for streamed bodies; absent = as sent
+fn set_rechunk(s: &Sexp) {
+    if s.list().len() == 2 {
+        crate::looprt::RECHUNK.with(|r| r.set((s.at(0).num() as usize, s.at(1).num() as usize)));
+    }
+}
+/// a chunk is written as segments `(n bytes)`: `bytes` repeated `n` times
+fn chunk_of(s: &Sexp) -> Vec<u8> {
+    let mut v = vec![];
+    for seg in s.list() {
+        let unit = seg.at(1).bytes();
+        for _ in 0..seg.at(0).num().max(0) {
+            v.extend_from_slice(&unit);
+        }
+    }
+    v
+}
+fn chunk_text(s: &Sexp) -> String {
+    String::from_utf8(chunk_of(s)).expect("case strings are valid UTF-8 by construction")
+}
+fn fnv(b: &[u8]) -> u64 {
+    b.iter().fold(0xcbf29ce484222325u64, |h, x| (h ^ *x as u64).wrapping_mul(0x100000001b3))
+}
+/// what a stream delivered, independent of where it was cut: maximal runs of data as
+/// (0 length fnv1a64), error items as (1 error)
+fn runs(items: impl Iterator<Item = Result<Vec<u8>, Sexp>>) -> Sexp {
+    let mut out = vec![];
+    let mut run: Option<Vec<u8>> = None;
+    let mut flush = |run: &mut Option<Vec<u8>>, out: &mut Vec<Sexp>| {
+        // (an empty run carries no data: whether the sender emitted empty chunks is not observable)
+        if let Some(r) = run.take().filter(|r| !r.is_empty()) {
+            out.push(Lst(vec![Num(0), Num(r.len() as i64), u64_to(fnv(&r))]));
+        }
+    };
+    for i in items {
+        match i {
+            Ok(b) => run.get_or_insert_with(Vec::new).extend_from_slice(&b),
+            Err(e) => {
+                flush(&mut run, &mut out);
+                out.push(Lst(vec![Num(1), e]));
+            }
+        }
+    }
+    flush(&mut run, &mut out);
+    Lst(out)
+}
+fn sum_text(r: Result<TextStream, ServerFnError>) -> Sexp {
+    match r {
+        Ok(s) => {
+            let items: Vec<Result<String, ServerFnError>> =
+                futures::executor::block_on(s.into_inner().collect());
+            Lst(vec![
+                Num(0),
+                runs(items.into_iter().map(|i| match i {
+                    Ok(s) => Ok(s.into_bytes()),
+                    Err(e) => Err(crate::errs::err_to_sexp(&e)),
+                })),
+            ])
+        }
+        Err(e) => Lst(vec![Num(1), crate::errs::err_to_sexp(&e)]),
+    }
+}
+
 /// (request-frame-header response-frame-header), each 0..=9; absent = keep the default
 fn set_frame(s: &Sexp) {
     if s.list().len() == 2 {
@@ -457,51 +678,52 @@ pub fn run(c: &Sexp) -> Sexp {
         }
         // text stream in, text stream out
         13 => {
-            let chunks: Vec<String> = c.at(1).list().iter().map(text).collect();
+            let chunks: Vec<String> = c.at(1).list().iter().map(chunk_text).collect();
+            set_rechunk(c.at(2));
             let mk = || TextStream::new(stream::iter(chunks.clone().into_iter().map(Ok)));
-            let collect_text = |r: Result<TextStream, ServerFnError>| match r {
-                Ok(s) => {
-                    let items: Vec<Result<String, ServerFnError>> = block_on(s.into_inner().collect());
-                    Lst(vec![Num(0), items_to(&items, |s| Sexp::from_str(s))])
-                }
-                Err(e) => Lst(vec![Num(1), crate::errs::err_to_sexp(&e)]),
-            };
-            let remote = collect_text(block_on(EchoText { input: mk() }.run_on_client()));
-            let direct = collect_text(block_on(echo_text(mk())));
+            let remote = sum_text(block_on(EchoText { input: mk() }.run_on_client()));
+            let direct = sum_text(block_on(echo_text(mk())));
             Lst(vec![remote, direct])
         }
         // byte stream out
         14 => {
-            let chunks: Vec<Vec<u8>> = c.at(1).list().iter().map(|b| b.bytes()).collect();
-            let collect_bytes = |r: Result<ByteStream, ServerFnError>| match r {
+            let chunks: Vec<Vec<u8>> = c.at(1).list().iter().map(chunk_of).collect();
+            set_rechunk(c.at(2));
+            let sum = |r: Result<ByteStream, ServerFnError>| match r {
                 Ok(s) => {
                     let items: Vec<Result<Bytes, Bytes>> = block_on(s.into_inner().collect());
-                    Lst(items
-                        .iter()
-                        .map(|i| match i {
-                            Ok(b) => Lst(vec![Num(0), Sexp::from_bytes(b)]),
-                            Err(b) => Lst(vec![Num(1), Sexp::from_bytes(b)]),
-                        })
-                        .collect())
+                    Lst(vec![
+                        Num(0),
+                        runs(items.into_iter().map(|i| match i {
+                            Ok(b) => Ok(b.to_vec()),
+                            Err(b) => Err(Lst(vec![Num(-1), Sexp::from_bytes(&b)])),
+                        })),
+                    ])
                 }
                 Err(e) => Lst(vec![Num(1), crate::errs::err_to_sexp(&e)]),
             };
-            let remote = collect_bytes(block_on(EmitBytes { chunks: chunks.clone() }.run_on_client()));
-            let direct = collect_bytes(block_on(emit_bytes(chunks)));
+            let remote = sum(block_on(EmitBytes { chunks: chunks.clone() }.run_on_client()));
+            let direct = sum(block_on(emit_bytes(chunks)));
             Lst(vec![remote, direct])
         }
         // text stream out (with error items)
         15 => {
-            let chunks: Vec<String> = c.at(1).list().iter().map(text).collect();
-            let collect_text = |r: Result<TextStream, ServerFnError>| match r {
-                Ok(s) => {
-                    let items: Vec<Result<String, ServerFnError>> = block_on(s.into_inner().collect());
-                    Lst(vec![Num(0), items_to(&items, |s| Sexp::from_str(s))])
-                }
+            let chunks: Vec<String> = c.at(1).list().iter().map(chunk_text).collect();
+            set_rechunk(c.at(2));
+            let remote = sum_text(block_on(TextOut { chunks: chunks.clone() }.run_on_client()));
+            let direct = sum_text(block_on(text_out(chunks)));
+            Lst(vec![remote, direct])
+        }
+        // byte stream in
+        17 => {
+            let chunks: Vec<Vec<u8>> = c.at(1).list().iter().map(chunk_of).collect();
+            set_rechunk(c.at(2));
+            let show = |r: Result<Vec<u8>, ServerFnError>| match r {
+                Ok(b) => Lst(vec![Num(0), runs(std::iter::once(Ok(b)))]),
                 Err(e) => Lst(vec![Num(1), crate::errs::err_to_sexp(&e)]),
             };
-            let remote = collect_text(block_on(TextOut { chunks: chunks.clone() }.run_on_client()));
-            let direct = collect_text(block_on(text_out(chunks)));
+            let remote = show(block_on(BytesIn::new(chunks.clone()).run_on_client()));
+            let direct = show(block_on(count_bytes(BytesIn::new(chunks))));
             Lst(vec![remote, direct])
         }
         // Option arguments in first / middle / last position, for every input encoding
@@ -534,16 +756,38 @@ pub fn run(c: &Sexp) -> Sexp {
             let d = show(direct(e));
             Lst(vec![r, d])
         }
-        // byte stream in
-        17 => {
-            let chunks: Vec<Vec<u8>> = c.at(1).list().iter().map(|b| b.bytes()).collect();
-            let show = |r: Result<Vec<u8>, ServerFnError>| match r {
-                Ok(b) => Lst(vec![Num(0), Sexp::from_bytes(&b)]),
+        // calls that cannot be encoded or decoded, on purpose
+        20 => {
+            let show = |r: Result<u32, ServerFnError>| match r {
+                Ok(n) => Lst(vec![Num(0), Num(n as i64)]),
                 Err(e) => Lst(vec![Num(1), crate::errs::err_to_sexp(&e)]),
             };
-            let remote = show(block_on(BytesIn::new(chunks.clone()).run_on_client()));
-            let direct = show(block_on(count_bytes(BytesIn::new(chunks))));
-            Lst(vec![remote, direct])
+            let pad = "p".repeat(c.at(2).num().clamp(0, 5000) as usize);
+            let mut m = std::collections::HashMap::new();
+            m.insert(Key { a: 1 }, 2u32);
+            match c.at(1).num() {
+                0 => show(block_on(PoisonArg { pad, m }.run_on_client())),
+                1 => show(block_on(PoisonResult { pad }.run_on_client()).map(|o| o.m.len() as u32)),
+                2 => show(block_on(NanArg { x: f64::NAN }.run_on_client())),
+                _ => show(block_on(
+                    Deep { d: D1 { d: D2 { d: D3 { d: D4 { d: D5 { d: D6 { x: 7 } } } } } } }
+                        .run_on_client(),
+                )),
+            }
+        }
+        // custom error types with text and binary encoders
+        21 => {
+            let plan = EPlan {
+                variant: c.at(2).at(0).num() as u8,
+                id: u64_of(c.at(2).at(1)),
+                what: text(c.at(2).at(2)),
+                code: c.at(2).at(3).num() as u32,
+                many: c.at(2).at(4).bytes(),
+                kind: c.at(2).at(5).num() as u8,
+            };
+            set_frame(c.at(3));
+            let (remote, direct) = APP_FNS[c.at(1).num() as usize % APP_FNS.len()];
+            Lst(vec![remote(plan.clone()), direct(plan)])
         }
         _ => Lst(vec![]),
     }
